@@ -34,6 +34,8 @@ const STAGES: &[(&str, StageFn)] = &[
     ("fence.min", fence::min),
     ("fence.vectors", fence::vectors),
     ("c02.codes", c02::codes),
+    ("c02.firstcall", c02::firstcall),
+    ("c02.firstcall.child", c02::firstcall_child),
     ("c02.sampled", c02::sampled),
     ("c02.streams", c02::streams),
     ("c03.maps", c03::maps),
@@ -111,6 +113,7 @@ const STAGES: &[(&str, StageFn)] = &[
     ("c17.lib", c17::lib),
     ("c17.cli", c17::cli),
     ("c17.killed", c17::killed),
+    ("c17.nearby", c17::nearby),
     ("selfcheck", selfcheck::run),
     ("core-eval", coreeval::core_eval),
     ("ref-eval", coreeval::ref_eval),
